@@ -15,6 +15,8 @@
   `renew` step in the model.
 -/
 import LiteFSVerif.Model.Lease
+import LiteFSVerif.Gen.Skel
+import LiteFSVerif.Model.ExpectedSkel
 
 namespace LiteFSVerif.C08
 open LiteFSVerif LiteFSVerif.Lease
@@ -146,5 +148,13 @@ theorem C08_handoff_needs_connection (s : Svc) (p k : Nat) (pn kn : LNode) :
 example : (acquire { allow := some 0 } 0 { up := true } "G1").isSome = true ∧
     (acquire { allow := some 0, cid := "A" } 0 { up := true, cid := "B" } "G1").isNone = true ∧
     (renew { holder := some 1, leaseID := 2 } 0 { up := true, lease := some 1 }).2.lease = none := by decide
+
+/-- the control skeletons (branch conditions, loop heads, returns, order of calls and of state
+    assignments) of `Store.monitorLeaseAsPrimary`, regenerated from the current source on every run, are the ones the
+    model was written and validated against (Model/ExpectedSkel.lean): a reordered, dropped or
+    altered check or call in these functions breaks this theorem -/
+theorem C08_source_skeletons :
+    Gen.Skel.Store_monitorLeaseAsPrimary = Expected.Skel.Store_monitorLeaseAsPrimary :=
+  rfl
 
 end LiteFSVerif.C08
